@@ -24,7 +24,7 @@ ASSUMPTIONS = ["maxAttempts is not judged (the generator ignores it and the prop
 REQUIRED_PROBES = ["retry_fired", "deadline_exhausted", "nonretryable_surface", "unnamed_method_called",
                    "async_retry_fired", "explicit_retry", "explicit_timeout", "attempt_deadline_fired",
                    "timeout_without_retry", "retry_without_timeout", "rest_call", "rest_retry_fired", "paged_call",
-                   "later_page_fetch_walked", "lro_call", "sstream_call", "sleep_overshoot_run"]
+                   "later_page_fetch_walked", "lro_call", "sstream_call", "sleep_overshoot_run", "caller_cancelled_mid_call"]
 
 
 def gen_spec(rng):
@@ -170,6 +170,10 @@ def gen_scenarios(spec, rng, n):
         sc = {"client": client, "actors": actors, "jitter_default": 1.0}
         if client != "async" and rng.random() < 0.25:
             sc["overshoot"] = rng.choice([0.05, 0.25, 1.0])      # time.sleep(d) returns after d*(1+overshoot)
+        if client == "async" and len(actors) > 1 and rng.random() < 0.2:
+            # fault: one caller's task is cancelled at an arbitrary instant (mid-attempt or inside a backoff sleep);
+            # the other callers' retries and deadlines must be unaffected and the cancelled caller must stop
+            sc["cancels"] = [{"actor": rng.randrange(len(actors)), "at": rng.choice([0.0, 0.01, 0.1, 0.3, 0.8, 2.0, 5.0])}]
         out.append(sc)
     return out
 
@@ -322,13 +326,23 @@ def judge_op(spec, scenario, op, evs, probes):
     attempts = [e for e in evs if e["k"] == "attempt"]
     ends = {e["n"]: e for e in evs if e["k"] == "attempt_end"}
     servers = {e["n"]: e for e in evs if e["k"] == "server"}
-    outcome = next((e for e in evs if e["k"] in ("return", "raise")), None)
+    outcome = next((e for e in evs if e["k"] in ("return", "raise", "cancelled")), None)
     if outcome is None:
         return V("no_outcome", "the call neither returned nor raised")
+    if outcome["k"] == "cancelled":
+        # the caller's task was cancelled: what was issued BEFORE that instant must still follow the model, and
+        # nothing may be issued after it
+        _bump(probes, "caller_cancelled_mid_call")
+        late = [a for a in attempts if a["t"] > outcome["t"] + TOL]
+        if late:
+            return V("attempt_after_cancel", f"attempt {late[0]['n']} was issued at t={late[0]['t']:.6f}, after the caller was cancelled at t={outcome['t']:.6f}")
+        if op["kind"] != "unary":
+            return []
     jit = list(op.get("jitter") or [])
     jd = scenario.get("jitter_default", 1.0)
     ctx = {"T": T, "pol": pol, "retry_T": retry_T, "jit": jit, "jd": jd, "path": path, "ends": ends, "servers": servers,
-           "client": scenario["client"], "probes": probes, "overshoot": scenario.get("overshoot", 0.0)}
+           "client": scenario["client"], "probes": probes, "overshoot": scenario.get("overshoot", 0.0),
+           "cancel_t": outcome["t"] if outcome["k"] == "cancelled" else None}
     if ctx["overshoot"]:
         _bump(probes, "sleep_overshoot_run")
     if op["kind"] == "paged":
@@ -369,6 +383,11 @@ def judge_op(spec, scenario, op, evs, probes):
     r = walk_call(ctx, attempts, invoke["t"], first_fetch=True)
     if r.get("viol"):
         return V(*r["viol"])
+    if r["status"] == "cancelled":
+        return []
+    if outcome["k"] == "cancelled":
+        return V("cancel_not_observed", f"the model says the call had ended ({r['status']}) at t={r['t_end']:.6f}, before the cancellation at "
+                 f"t={outcome['t']:.6f}, yet the caller saw neither a reply nor an error")
     if r["used"] != len(attempts):
         return V("extra_attempt", f"the call ended after attempt {r['used']} ({r['status']}) but {len(attempts) - r['used']} more attempt(s) followed")
     if r["status"] == "ok":
@@ -390,6 +409,9 @@ def walk_call(ctx, attempts, t0, first_fetch=True):
     k = 0
     while True:
         k += 1
+        ct = ctx.get("cancel_t")
+        if k > len(attempts) and ct is not None and expect_t >= ct - TOL:
+            return {"status": "cancelled", "used": len(attempts)}        # cancelled inside the backoff sleep
         if k > len(attempts):
             return {"viol": ("missing_attempt", f"model expects attempt {k} at t={expect_t:.6f} but the client issued only "
                              f"{len(attempts)} attempt(s)")}
@@ -419,6 +441,8 @@ def walk_call(ctx, attempts, t0, first_fetch=True):
             code, dur = o.get("code"), lat
         end = ctx["ends"].get(a["n"])
         t_end = a["t"] + dur
+        if ct is not None and t_end >= ct - TOL and (end is None or end["t"] >= ct - TOL):
+            return {"status": "cancelled", "used": k}                    # cancelled while this attempt was in flight
         if end is None or abs(end["t"] - t_end) > TOL:
             return {"viol": ("harness_attempt_end", f"attempt {k} end event inconsistent: {end} vs {t_end}")}
         if code is None:
@@ -437,6 +461,8 @@ def walk_call(ctx, attempts, t0, first_fetch=True):
             # api-core; the property does not -> accept either continuation (counted, not judged)
             _bump(probes, "deadline_tie_skipped")
             nxt = attempts[k] if k < len(attempts) else None
+            if nxt is None and ct is not None:
+                return {"status": "cancelled", "used": k}     # tie + cancellation: either continuation was cut short
             over = -1.0 if (nxt is not None and abs(nxt["t"] - (t_end + sleep * (1.0 + ctx.get("overshoot", 0.0)))) <= TOL) else 1.0
         if over is not None and over > 0:
             _bump(probes, "deadline_exhausted")
